@@ -153,6 +153,16 @@ func callMenu() []callT {
 		{"Url", func(t int) []interface{} {
 			return []interface{}{fmt.Sprintf("http://h/p?k=ab&j=&t=%d", t), valid.RM{"k": "to=3~5|short", "j": "required"}}
 		}, func(a []interface{}) string { return errText(valid.Url(a[0], a[1].(valid.RM))) }, nil},
+		// group rules through every entry point that collects group members (whatever is recycled between calls carries
+		// nothing of the call it served)
+		{"Map([]map, either over three maps)", func(t int) []interface{} {
+			return []interface{}{[]map[string]string{{"a": "", "b": ""}, {"a": "x", "b": ""}, {"a": "", "b": ""}}, valid.RM{"a": "either=1", "b": "either=1"}}
+		}, func(a []interface{}) string { return errText(valid.Map(a[0], a[1].(valid.RM))) }, nil},
+		{"Struct(G4 groups)", func(t int) []interface{} { return []interface{}{&G4{A: "", B: "", C: 1 + t, D: 1 + t}} },
+			func(a []interface{}) string { return errText(valid.Struct(a[0])) }, nil},
+		{"Url(either, both empty)", func(t int) []interface{} {
+			return []interface{}{fmt.Sprintf("http://h/p?k1=&k2=&t=%d", t), valid.RM{"k1": "either=4", "k2": "either=4"}}
+		}, func(a []interface{}) string { return errText(valid.Url(a[0], a[1].(valid.RM))) }, nil},
 		{"Struct(fresh type)", func(t int) []interface{} {
 			p := reflect.New(freshType())
 			p.Elem().Field(1).Set(reflect.ValueOf(T1{F: "", G: 5}))
@@ -162,6 +172,13 @@ func callMenu() []callT {
 				return `"F" input "", explain: need; ".N.F" input "", explain: need-F; ".N.G" input "5", explain: it is more than 3 num-size`
 			}},
 	}
+}
+
+type G4 struct {
+	A string `valid:"either=1"`
+	B string `valid:"either=1"`
+	C int    `valid:"botheq=2"`
+	D int    `valid:"botheq=2"`
 }
 
 func canon(res string) string {
